@@ -55,6 +55,13 @@ type fetcherDocID struct {
 }
 
 func (f *multiFetcher) NextDoc() (immutable.Option[string], error) {
+	// Calling `NextDoc` must always progress the iteration: the document yielded by the previous
+	// call is done with, whether or not `GetFields` was called for it (a wrapping fetcher, e.g. the
+	// permissioned fetcher, may skip a document without ever asking for its fields).
+	if f.currentFetcherIndex >= 0 && f.currentFetcherIndex < len(f.children) {
+		f.children[f.currentFetcherIndex].docID = immutable.None[string]()
+	}
+
 	selectedFetcherIndex := -1
 	var selectedDocID immutable.Option[string]
 
